@@ -9,11 +9,11 @@ from vlib import sfgen
 PROP = "C07"
 LEVEL = "proof"
 COQ_DIRS = ["C07", "Bosonic"]
-COQ_TARGETS = ["Gen/GaussCirc.vo", "Base/GaussTac.vo", "Base/PhaseSpace.vo", "C07/GaussPhysical.vo", "C07/Symplectic.vo"] + list(bm.COQ_TARGETS)
+COQ_TARGETS = ["Gen/GaussCirc.vo", "Base/MatOps.vo", "Gen/GaussMat.vo", "C07/GaussPassive.vo", "Base/GaussTac.vo", "Base/PhaseSpace.vo", "C07/GaussPhysical.vo", "C07/Symplectic.vo"] + list(bm.COQ_TARGETS)
 PROPERTIES_FILE = "Properties/C07.v"
 EXTRA_PROPERTIES_FILES = [bm.PROPERTIES_FILE]
 ALLOWED_AXIOMS = set()
-TRANSLATORS = [gc.translate_gausscirc]
+TRANSLATORS = [gc.translate_gausscirc, gc.translate_gaussmat_fn]
 RULE = ("(a) generated-function correspondence as in C05; (b) physicality search: random circuits (weak correlated prefix + 1-4 random "
         "commands, n = 1..4 modes, any ordered targets) on gaussian / bosonic / fock-pure / fock-mixed; checks: cov symmetric and "
         "cov + i*Omega >= 0, dm Hermitian PSD trace <= 1, bosonic weights sum to 1, purity preserved by unitaries, total photon number "
@@ -35,6 +35,21 @@ UNITARY = list(sfgen.GAUSSIAN_GATES)
 
 def correspondence(ctx):
     bm.correspondence_bosonic(ctx, predicates=('weights', 'symmetric', 'spectator'))
+    bad = gc.correspondence_apply_u(ctx, ctx.budget(60, 600), tag="c07au")
+    for c in (bad or [])[:3]:
+        small = {"kind": c["kind"], "n": c["n"]}
+        N1, M1, a1 = (np.array(x) for x in c["out"])
+        N0, a0 = np.array(c["N"]), np.array(c["a"])
+        herm = np.abs(N0 - N0.conj().T).max() < 1e-12
+        sig = None
+        if herm and np.abs(N1 - N1.conj().T).max() > 1e-10:
+            sig = "N-not-hermitian"
+        elif herm and c["kind"] == "unitary" and abs((np.trace(N1) + np.vdot(a1, a1)) - (np.trace(N0) + np.vdot(a0, a0))) > 1e-9:
+            sig = "unitary-changes-photon-number"
+        if sig:
+            ctx.counterexample("gaussianmodes:apply_u:" + sig, "GaussianModes.apply_u: " + sig, {"check": "apply_u", "case": small})
+        else:
+            ctx.disagreement("corr:gaussmat:apply_u", "generated model of GaussianModes.apply_u disagrees with the implementation", {"check": "apply_u", "case": small})
     failing = gc.correspondence_generated(ctx, ctx.budget(240, 3000), tag="c07")
     if failing is None:
         return
